@@ -253,9 +253,6 @@ func runC04(r *Run, rng *rand.Rand, thorough bool) {
 			sts := strategies(len(sub)+newCfg[0], rng)
 			st := sts[run%len(sts)]
 			run++
-			if !thorough && run%2 == 0 {
-				continue
-			}
 			nk := reshareEd(r, rng, ks, sub, newCfg[0], newCfg[1], st)
 			if nk == nil {
 				continue
@@ -286,14 +283,14 @@ func runC04(r *Run, rng *rand.Rand, thorough bool) {
 	}
 	// ECDSA: vendored key, production path (proofs on) and without
 	eks := fixtureEcKeys()
-	ecRuns := 1
+	ecRuns := 2 // t' < t with proofs, t' > t without
 	if thorough {
-		ecRuns = 6
+		ecRuns = 8
 	}
 	for i := 0; i < ecRuns; i++ {
 		subs := combos(eks.n, eks.t+1+i%2)
 		sub := subs[rng.Intn(len(subs))]
-		newCfg := [][2]int{{3, 1}, {2, 1}, {4, 2}, {3, 2}}[i%4]
+		newCfg := [][2]int{{3, 1}, {4, 3}, {2, 1}, {4, 2}, {3, 2}, {5, 3}, {5, 4}, {4, 1}}[i%8]
 		sts := strategies(len(sub)+newCfg[0], rng)
 		st := sts[(i*3+int(r.Seed))%len(sts)]
 		nk := reshareEc(r, rng, eks, sub, newCfg[0], newCfg[1], i%2 == 0, st)
